@@ -243,6 +243,11 @@ def make_world(seed, index, flush=False, aligned=False):
     return w, rng
 
 
+UNALIGNED_TARGETS = [X.struct(X.sc("Int64"), X.arr(X.sc("Float64"), [-1]), X.arr(X.sc("Int16"), [-1]), X.STR),
+                     X.arr(X.sc("Int32"), [-1, -1], [1, 0]), X.arr(X.STR, [-1]),
+                     X.struct(X.arr(X.sc("UInt8"), [-1]), X.struct(X.sc("Int8"), X.arr(X.sc("Float32"), [-1, 2])), X.arr(X.sc("Float64"), [-1]))]
+
+
 def build_objects(seed, nworlds, ns_prefix, aligned=False, gindex=0):
     """worlds full of objects; returns (worlds, list of (world, key))"""
     worlds, objs = [], []
@@ -251,6 +256,18 @@ def build_objects(seed, nworlds, ns_prefix, aligned=False, gindex=0):
         w.index = gindex + i
         place = "aligned" if aligned else None       # every object (and referent) on an 8-byte boundary of the buffer
         w.ns.prefix = f"{ns_prefix}w{i}"
+        if not aligned and (gindex + i) % 4 == 1:
+            # a referent, then an odd-sized live neighbour, then holders that ALIAS the referent: the distance between a reference word
+            # and its target is not a multiple of 8, and the paths through the reference go on to read header words of the target
+            b = rng.randrange(2)
+            ttx = rng.choice(UNALIGNED_TARGETS)
+            kt = w.new(ttx, b, mindim=1, placement="packed")
+            if kt is not None:
+                w.wedge(b)
+                for htx in (X.struct(X.ref(ttx), X.sc("Int8")), X.arr(X.ref(ttx), [2])):
+                    w.forced = [("alias", kt[1], 0, w.handles[kt]["ctor"])] * 2
+                    w.new(htx, b, placement="packed")
+                    w.forced = None
         for n in range(rng.randint(2, 4)):
             if n == 0 and (gindex + i) % 2 == 0:
                 tx = H.sweep_type((gindex + i) // 2, rng)[0]
@@ -269,6 +286,12 @@ def build_objects(seed, nworlds, ns_prefix, aligned=False, gindex=0):
 def value_for(rng, last):
     kind = last.__name__ if hasattr(last, "__name__") else "Float64"
     kind = {"Uint8": "UInt8", "Uint16": "UInt16", "Uint32": "UInt32", "Uint64": "UInt64"}.get(kind, kind)
+    if kind.startswith("Float") and rng.random() < 0.4:
+        # values next to zero that are exactly representable in the declared type: subnormals of either sign, the smallest normal
+        dt = np.dtype(kind.lower())
+        fi = np.finfo(dt)
+        v = dt.type(rng.choice([fi.smallest_subnormal, -fi.smallest_subnormal, fi.tiny / 2, -fi.tiny / 4, fi.tiny, float(np.nextafter(fi.tiny, dt.type(0)))]))
+        return list(v.tobytes())
     b, _ = X.gen_scalar(kind, rng)
     return b
 
@@ -365,6 +388,9 @@ LIVE_TYPES = [
 ]
 
 
+# every floating-point leaf kind, as field and as item: setters called through the library's own build (its default compiler flags)
+FLOAT_LEAVES = X.struct(X.sc("Float32"), X.sc("Float64"), X.arr(X.sc("Float32"), [2]), X.arr(X.sc("Float64"), [-1]))
+
 # pairs of types whose nested array classes are NAMESAKES in the library's own naming (same item type and shape, another axis
 # order), each built in a kernel module of its own within one process
 NAMESAKE_PAIRS = [
@@ -414,7 +440,7 @@ def _live_child(seed, tier, out):
         fo.write(json.dumps(obj) + "\n")
         fo.flush()
     pair = NAMESAKE_PAIRS[seed % len(NAMESAKE_PAIRS)] if tier == "quick" else [t for p_ in NAMESAKE_PAIRS for t in p_]
-    plan_ = [(LIVE_TYPES[(i + seed) % len(LIVE_TYPES)], False) for i in range(n)] + [(t, True) for t in pair]
+    plan_ = [(FLOAT_LEAVES, False)] + [(LIVE_TYPES[(i + seed) % len(LIVE_TYPES)], False) for i in range(n)] + [(t, True) for t in pair]
     for i, (tx, native) in enumerate(plan_):
         rng = random.Random(f"{seed}:live:{i}")
         w = World(rng, caps=[0, 64, 64], aligns=[1, 1, 1], dirty=False)       # buffer 0 is exactly full after every allocation
